@@ -62,7 +62,35 @@ def compare(a, b, atol, rtol, zero_res_valves=()):
                         cols[c] = [None if i in zero_res_valves else x for i, x in zip(v["index"], cols[c])]
             out[t] = {"index": v["index"], "cols": cols}
         return out
-    return drive.same_results(prim(a), prim(b), rtol=rtol, atol=atol)
+    diffs = drive.same_results(prim(a), prim(b), rtol=rtol, atol=atol)
+    if not diffs:
+        return diffs
+    # Near m = 0 the branch law m|m| has a double root: the convergence test bounds the pressure residual, which
+    # determines a nearly stagnant flow only to ~sqrt(tol): such "stalled" flows (|m| < 1e-5 kg/s in both runs) may
+    # differ by their own size, and every other mass flow by at most their sum (continuity).  Derived allowance on the
+    # mass-flow columns: atol + 4 * (sum of stalled flows); pressures and temperatures keep the plain bound.
+    stall = 0.0
+    for t, v in a.items():
+        ca, cb = v["cols"].get("mdot_from_kg_per_s"), b.get(t, {}).get("cols", {}).get("mdot_from_kg_per_s")
+        if ca is None or cb is None or len(ca) != len(cb):
+            continue
+        for x, y in zip(ca, cb):
+            if x is not None and y is not None and max(abs(x), abs(y)) < 1e-5:
+                stall += max(abs(x), abs(y))
+    if stall == 0.0:
+        return diffs
+    kept = []
+    for tbl, msg in diffs:
+        col = msg.split("[")[0]
+        if col.startswith("mdot"):
+            try:
+                x, y = (float(z) for z in msg.split(": ", 1)[1].split(" vs "))
+                if abs(x - y) <= atol + 4 * stall:
+                    continue
+            except ValueError:
+                pass
+        kept.append((tbl, msg))
+    return kept
 
 
 def perturb_spec(spec, rng, col, lo, hi):
